@@ -72,7 +72,7 @@ def baseline(commit):
 
 def main():
     par = int(sys.argv[1]) if len(sys.argv) > 1 else 4
-    seeds = sys.argv[2:] or sorted(d for d in os.listdir(SEEDED) if re.fullmatch(r'C\d\d[a-z]', d))
+    seeds = sys.argv[2:] or sorted(d for d in os.listdir(SEEDED) if re.fullmatch(r'C\d\d[A-Za-z]', d))
     head = sh('git -C /repo rev-parse --short HEAD').stdout.strip()[:7]
     rows, applied = {}, {}
     with cf.ThreadPoolExecutor(par) as ex:
